@@ -169,6 +169,16 @@ CHECKS = {
              'is not modelled, so the claim is exploration of the stated matrix, not a model-checked design.',
         design='5/C08 and 8', technique='exhaustive protocol-prefix x injection and AUTH matrices on real TLS, TLC trace validation against a TLA+ observer',
         note='Known finding D27 (plain-text mechanisms accepted without TLS with the installed pysasl). ' + TB),
+    'C06': dict(
+        level='exploration',
+        text='The protocol halves of the hop are model-checked elsewhere (DataFraming for content framing, SmtpServer for the '
+             'receiving state machine, SmtpClient for reply pairing); this check connects the real StaticSmtpRelay to the real '
+             'edge over a socketpair for generated envelopes and server configurations and lets TLC compare, per execution, the '
+             'envelope the edge handed to its queue with the one given to the relay (sender, recipients in order, content modulo '
+             'the final CRLF), the extension sets on both sides, and the relay result with the edge reply. Address quoting and '
+             'header serialisation are codec fidelity (identity oracle), hence exploration.',
+        design='5/C06 and 8', technique='generated envelopes through real relay->edge hops, TLC trace validation with TLA+ equality/normalisation clauses',
+        note='HTTP relay -> WSGI edge and the LMTP client are not driven yet. ' + TB),
 }
 
 HOOK_COMMITS = []
